@@ -536,8 +536,17 @@ class AggregateAssignmentMatrixGenerator:
     @staticmethod
     def _write_to_cache(cache_path, obj):
         os.makedirs(os.path.dirname(cache_path), exist_ok=True)
-        with open(cache_path, 'wb') as fp:
-            pickle.dump(obj, fp)
+
+        # Write to a temporary file and move it in place, so that an interrupted write (e.g. by the time limiter) never
+        # leaves a truncated cache file behind that all later loads would trip over
+        tmp_path = f'{cache_path}.{os.getpid()}.tmp'
+        try:
+            with open(tmp_path, 'wb') as fp:
+                pickle.dump(obj, fp)
+            os.replace(tmp_path, cache_path)
+        finally:
+            if os.path.exists(tmp_path):
+                os.remove(tmp_path)
 
     @staticmethod
     def _load_from_cache(cache_path):
